@@ -14,7 +14,7 @@ only = sys.argv[2:] or seeds
 
 def run_seed(args):
     w, sid = args
-    base = "/tmp/vscratch/%s%d" % (CORPUS[0], w)
+    base = "/tmp/vscratch/%s%d-%d" % (CORPUS[0], os.getpid(), w)      # (per run: two matrices may run side by side)
     repo = base + "/repo"
     os.makedirs(base, exist_ok=True)
     subprocess.run(["rsync", "-a", "--delete", "--exclude", "target", "--exclude", ".git", "/repo/", repo + "/"], check=True)
@@ -71,6 +71,9 @@ def main():
             old[k_] = v_
     json.dump(old, open(path, "w"), indent=1, sort_keys=True)
     shutil.rmtree(SNAP, ignore_errors=True)
+    import glob
+    for d in glob.glob("/tmp/vscratch/%s%d-*" % (CORPUS[0], os.getpid())):
+        shutil.rmtree(d, ignore_errors=True)
     missed = [s for s, r in old.items() if isinstance(r, dict) and "error" not in r and not r.get(s.split("-")[0], {}).get("rc")]
     if CORPUS == "seeded":
         print("seeds:", len(old), "missed by own property's check:", missed)
